@@ -49,7 +49,7 @@ Init ==
   /\ mon = [anySig |-> FALSE, realFail |-> FALSE, firstObs |-> NoObs, finalObs |-> NoObs,
             tbDraws |-> <<>>, gens |-> 0, passes |-> 0, fromFF |-> FALSE, failSeed |-> Zero,
             iters |-> 0, saved |-> NoStream, savedFile |-> "", finalRan |-> FALSE, invs |-> 0,
-            firstKind |-> "none", firstStream |-> NoStream, failDraws |-> <<>>, early |-> FALSE]
+            firstKind |-> "none", firstStream |-> NoStream, failDraws |-> <<>>, early |-> FALSE, ffStreams |-> {}]
 
 EUnch == UNCHANGED <<pc, cfg, ffq, ff, pend, valid, invalid, seed, cur, flag, e1, e2, buf, best, orig, sErr, cache, shrinks, rep, tbFailed, tbFailNow, mon>>
 
@@ -242,7 +242,7 @@ V_CrossRun(failed) ==
   ELSE LET pr == RefRun IN
     \* the run after a persisted failure, with no flags: the fail file is found and replayed first
     (IF runinfo.expect = "replay_prev"
-     THEN If(mon.firstKind # "ff1" \/ mon.firstStream.id # pr.buf.id, "replay_not_first")
+     THEN If(pr.buf.id \notin mon.ffStreams, "replay_not_first")   \* replayed (as a fail file) before any random test case
           \cup If(~(rep.kind = pr.rep.kind /\ rep.valid = 0 /\ rep.msg = pr.rep.msg), "replay_differs")
           \cup If(mon.finalObs.draws # pr.finalDraws, "replay_differs")
      ELSE {})
